@@ -56,7 +56,12 @@ Theorem c04_dest_silent_sender_bounded : forall (N M : nat) (s : dst) (r : rcfg)
   d_step s = (if p_md_missing (d_p s) then DS_WAITING_FOR_METADATA else DS_WAITING_FOR_MISSING_DATA) ->
   d_queue s = [] -> d_ready s = 0 ->
   h_mode (p_conf (d_p s)) = ACKED -> p_rcfg (d_p s) = Some r -> p_tid (d_p s) = Some (a, b) ->
-  p_deferred (d_p s) = true -> p_file_size_eof (d_p s) = Some eos ->
+  p_deferred (d_p s) = true ->
+  (* the transaction is not cancelled (every reachable waiting state; after the F35 repair the NAK procedure of a
+     cancelled transaction does nothing, so without this the statement is false:
+     SilentSenderProofs.statement_needs_not_cancelled) *)
+  p_disp (d_p s) <> DISP_CANCELED ->
+  p_file_size_eof (d_p s) = Some eos ->
   (p_tracker (d_p s) <> [] \/ p_md_missing (d_p s) = true) ->
   p_proc_timer (d_p s) = Some (now_d s, r_nak_ms r) -> p_nak_counter (d_p s) = 0 ->
   (* the number of requests a NAK PDU can hold is computable (only consulted when NAKs are re-issued, i.e. N >= 2;
